@@ -9,6 +9,7 @@
 -/
 import PgGen.C09Facts
 import PgProofs.Notify
+import PgProofs.NotifySpec
 namespace Pg.C09
 open T
 open Pg.C08 (Atom Key NotifyKind)
@@ -43,6 +44,58 @@ theorem C09_silent_skip (n : Bool) (root : T) (recv : Path) (op : Op)
     (step root recv n op).events = [] := by
   cases op <;> simp [Op.kind] at h <;>
     simp only [step, finish, rawStep, Bool.false_and, Bool.false_eq_true, if_false] <;> (repeat' split) <;> rfl
+
+/-! ## The notification contract
+
+`specNotifs root ups` (PgProofs/NotifySpec.lean) is stated without reference to the grouping /
+sorting algorithm: for a batch `ups` of changed locations (each with the path of the node that owns
+it, and its old and new value) every *subscribing* node whose path is a prefix of the owner's path
+-- i.e. every subscribing ancestor-or-self -- gets exactly one event, carrying exactly the changed
+locations at or below it, relative to it, with their old / new values; nobody else gets one. -/
+
+/-- CONTRACT (multiset part), for every well-formed tree, every depth and every batch of updates
+(single accessor writes and batched rebinds alike): the events delivered by the model of
+`_notify_field_updates` are, as a multiset, exactly the specified ones — each affected subscribing
+ancestor once, no other receiver, exact relative locations, old and new values as recorded. -/
+theorem C09_contract (root : T) (hwf : WF root) (ups : List (Update × Path)) :
+    (notifications root ups).Perm (specNotifs root ups) :=
+  contract_perm hwf ups
+
+/-- Every notifying call ends in `finish r' ups notifyOn` where `r'` is the tree after the writes
+and `ups` the updates the write primitive produced; with notification on, its events satisfy the
+contract. -/
+theorem C09_contract_finish (r' : T) (hwf : WF r') (ups : List (Update × Path)) :
+    (finish r' ups true).events.Perm (specNotifs r' ups) := by
+  unfold finish
+  cases ups with
+  | nil => simp [specNotifs, entriesFor]
+  | cons x rest => simpa using contract_perm hwf (x :: rest)
+
+/-- Instance: a batched `rebind` on a dict / object receiver. -/
+theorem C09_contract_rebind (root r' : T) (recv : Path) (pairs : List (Path × T)) (ups : List (Update × Path))
+    (hrecv : ∀ m items, getAt root recv ≠ some (.node m .list items))
+    (hw : writeAll root recv pairs [] = some (r', ups)) (hwf : WF r') :
+    (step root recv true (.rebind pairs)).events.Perm (specNotifs r' ups) := by
+  have hfin := C09_contract_finish r' hwf ups
+  simp only [step]
+  cases hg : getAt root recv with
+  | none => simpa only [hw] using hfin
+  | some t =>
+    cases t with
+    | leaf a => simpa only [hw] using hfin
+    | node m kd items =>
+      cases kd with
+      | list => exact absurd hg (hrecv m items)
+      | dict => simpa only [hw] using hfin
+      | obj => simpa only [hw] using hfin
+
+/-- Exactly once: no receiver occurs twice among the delivered events. -/
+theorem C09_exactly_once (root : T) (hwf : WF root) (ups : List (Update × Path)) :
+    ((notifications root ups).map Event.recv).Nodup := by
+  have h := (contract_perm hwf ups).map Event.recv
+  rw [h.nodup_iff]
+  exact (filterMap_recv_sublist (fun r => (entriesFor r.1 ups).isEmpty)
+    (fun r => { recv := r.2, entries := entriesFor r.1 ups }) (fun _ => rfl) _).nodup hwf.2
 
 /-! ## Freshness of the memoised derived state -/
 
@@ -144,6 +197,7 @@ theorem C09_stale_without_invalidation :
 
 /-! Non-vacuity -/
 example : Fresh exRoot := by simp [exRoot, Fresh, FreshItems, deriveItems]
+example : WF exRoot := by simp [WF, exRoot, KeysNodup, KeysNodupItems, allSubs, allSubsItems]
 example : (step exRoot [] true (.setKey (Key.s "k") (.leaf (.int 2)))).events.length = 1 := by
   decide
 
